@@ -13,12 +13,17 @@ VARIABLES l, bad, cnt
 Trace == ndJsonDeserialize(TraceFile)
 vars == <<l, bad, cnt>>
 
-Init == l = 1 /\ bad = {} /\ cnt = [res |-> 0, ok |-> 0, crash |-> 0]
+Init == l = 1 /\ bad = {} /\ cnt = [res |-> 0, ok |-> 0, crash |-> 0, closerace |-> 0]
 Next ==
   /\ l <= Len(Trace)
   /\ l' = l + 1
   /\ LET ev == Trace[l] IN
      CASE ev.ev = "Hung" -> bad' = bad \cup {<<ev.t, ev.i, "Hung", {"NoResult_" \o ev.kind}>>} /\ UNCHANGED cnt
+       [] ev.ev = "CloseRace" ->
+            \* request APIs called while the NodeHost is being closed: no panic, every handle answered
+            /\ bad' = bad \cup (IF ev.panics # <<>> THEN {<<ev.t, ev.i, "CloseRace", {"PanicInApiCallDuringClose: " \o ev.panics[1]}>>} ELSE {})
+                         \cup (IF ev.hung > 0 THEN {<<ev.t, ev.i, "CloseRace", {"NoResult_after_close"}>>} ELSE {})
+            /\ cnt' = [cnt EXCEPT !.closerace = @ + ev.calls]
        [] ev.ev = "Panic" -> bad' = bad \cup {<<ev.t, ev.i, "Panic", {ev.msg}>>} /\ UNCHANGED cnt
        [] ev.ev = "Res" -> cnt' = [cnt EXCEPT !.res = @ + 1, !.ok = @ + (IF ev.out = "ok" THEN 1 ELSE 0)] /\ UNCHANGED bad
        [] ev.ev = "Crash" -> cnt' = [cnt EXCEPT !.crash = @ + 1] /\ UNCHANGED bad
